@@ -22,6 +22,15 @@ FRAG_IMITATING = [
     '<defTextVector device="a" name="b" state="Ok" perm="rw"><oneText name="x">v</oneText></defTextVector>',
     "<!-- <getProperties -->", "<![CDATA[<pingRequest uid='1'/>]]>", '<pingReply uid="1"', "<pingRequest>", "</pingRequest>",
     '<setBLOBVector device="a" name="b" state="Ok"><oneBLOB name="x" size="3" format=".b">QUJD', "</oneBLOB></setBLOBVector>",
+    # complete elements whose VALUES are what a validator may choke on: long runs of field separators in a number, long runs
+    # of one character in a state / switch / text value (each stays far below any junk threshold)
+    '<newNumberVector device="a" name="b"><oneNumber name="x">1' + " " * 19 + 'x</oneNumber></newNumberVector>',
+    '<setNumberVector device="a" name="b" state="Ok"><oneNumber name="x">1' + " :" * 10 + '!</oneNumber></setNumberVector>',
+    '<newNumberVector device="a" name="b"><oneNumber name="x">12' + "; " * 11 + '</oneNumber></newNumberVector>',
+    '<newNumberVector device="a" name="b"><oneNumber name="x">' + "1:" * 30 + '</oneNumber></newNumberVector>',
+    '<newNumberVector device="a" name="b"><oneNumber name="x">' + "9" * 60 + "e" + "9" * 60 + '</oneNumber></newNumberVector>',
+    '<newSwitchVector device="a" name="b"><oneSwitch name="x">' + "On" * 40 + '</oneSwitch></newSwitchVector>',
+    '<setLightVector device="a" name="b" state="' + "Ok " * 30 + '"/>',
 ]
 
 FRAG_PLAIN = [
@@ -76,8 +85,27 @@ def small_valid(rng):
 
 def gen_stream(rng, flavour=None):
     """Returns list of pieces (label, text, am, tail_len)."""
-    flavour = flavour or rng.choice(["plain-junk", "imitating", "truncated", "mixed", "mixed", "only-junk"])
+    flavour = flavour or rng.choice(["plain-junk", "imitating", "truncated", "mixed", "mixed", "only-junk", "enclosed"])
     pieces = []
+    if flavour == "enclosed":
+        # a stray opener and, further on, its stray closer: together they form ONE well-formed but invalid element AROUND valid
+        # messages, which must be delivered all the same
+        tag, attrs = rng.choice([("newTextVector", 'device="a" name="b"'), ("setTextVector", 'device="a" name="b" state="Ok"'),
+                                 ("defSwitchVector", 'device="a" name="b" state="Ok" perm="rw" rule="AnyOfMany"'),
+                                 ("setNumberVector", 'device="a" name="b"'), ("message", 'device="a"'), ("getProperties", 'version="1.7"')])
+        if rng.random() < 0.3:
+            pieces.append(("junk", junk_piece(rng, False), None, 0))
+        pieces.append(("imitating", f"<{tag} {attrs}>", None, 0))
+        for _ in range(rng.choice([1, 1, 2, 3])):
+            am, text, tail = small_valid(rng)
+            pieces.append(("valid", text, am, tail))
+            if rng.random() < 0.3:
+                pieces.append(("junk", rng.choice([" ", "\n", "text between", "&amp;"]), None, 0))
+        pieces.append(("imitating", f"</{tag}>", None, 0))
+        if rng.random() < 0.5:
+            am, text, tail = small_valid(rng)
+            pieces.append(("valid", text, am, tail))
+        return flavour, pieces
     n = rng.choice([2, 3, 4, 6])
     for k in range(n):
         r = rng.random()
